@@ -202,7 +202,10 @@ class OpNode(object):
 def gen_op(rng, S, depth=1):
     """Random operator with domain S (range may be another space)."""
     import odl
-    kinds = ['scal', 'mult', 'id', 'square', 'shift', 'usquare', 'recip']
+    kinds = ['scal', 'mult', 'id', 'square', 'shift', 'usquare']
+    if not _FLOATS[0]:
+        kinds += ['recip']     # 1/x only in the exact correspondence (non-finite results are skipped there);
+        #                        the finite-difference oracles of the probes stay away from its poles
     if depth > 0:
         kinds += ['pwprod', 'pwprod']
     if S.kind in ('rn', 'rn1'):
